@@ -17,6 +17,53 @@ import (
 
 var errInjected = errors.New("injected queue fault")
 
+// The injected failure as a remote / persistent queue would report it: a plain error, an error that wraps a
+// context error of the queue's own per-operation deadline (the scheduler's context is alive), or one that
+// wraps a sentinel of package quartz on an operation where that sentinel has no meaning in the JobQueue
+// contract (ErrQueueEmpty is an answer of Head and Pop, ErrJobNotFound of Get and Remove: not used there).
+type injErr struct {
+	op    string
+	wraps error
+}
+
+func (e *injErr) Error() string {
+	if e.wraps == nil {
+		return "queue " + e.op + ": " + errInjected.Error()
+	}
+	return "queue " + e.op + ": " + errInjected.Error() + ": " + e.wraps.Error()
+}
+func (e *injErr) Unwrap() error        { return e.wraps }
+func (e *injErr) Is(target error) bool { return target == errInjected }
+
+var errKinds = []string{"plain", "deadline", "canceled", "queue_empty", "not_found"}
+
+func kindAllowed(kind, method string) bool {
+	switch kind {
+	case "queue_empty":
+		return method != "Head" && method != "Pop"
+	case "not_found":
+		return method != "Get" && method != "Remove"
+	}
+	return true
+}
+
+func mkInjected(kind, method string) error {
+	if !kindAllowed(kind, method) {
+		kind = "plain"
+	}
+	switch kind {
+	case "deadline":
+		return &injErr{method, context.DeadlineExceeded}
+	case "canceled":
+		return &injErr{method, context.Canceled}
+	case "queue_empty":
+		return &injErr{method, quartz.ErrQueueEmpty}
+	case "not_found":
+		return &injErr{method, quartz.ErrJobNotFound}
+	}
+	return &injErr{method, nil}
+}
+
 var qMethods = []string{"Size", "Head", "Pop", "Push", "Get", "Remove", "ScheduledJobs", "Clear"}
 
 type faultPlan struct {
@@ -27,6 +74,9 @@ type faultPlan struct {
 	K      int    `json:"k"`      // burst length
 	Pct    int    `json:"pct"`    // random: percent of calls that fault
 	RI     int    `json:"ri_ms"`  // RetryInterval
+	// what the injected error is: "" / plain | deadline | canceled (wraps context.DeadlineExceeded / Canceled) |
+	// queue_empty | not_found (wraps quartz.ErrQueueEmpty / ErrJobNotFound) | mixed (drawn per fault)
+	Err string `json:"err,omitempty"`
 }
 
 type qcall struct {
@@ -103,6 +153,16 @@ func (q *faultQ) decide(m string) (bool, time.Duration, int) {
 	return false, 0, idx
 }
 
+func (q *faultQ) injected(m string) error {
+	kind := q.plan.Err
+	if kind == "mixed" {
+		q.mu.Lock()
+		kind = errKinds[q.r.intn(len(errKinds))]
+		q.mu.Unlock()
+	}
+	return mkInjected(kind, m)
+}
+
 func (q *faultQ) note(m, out string, caller string) {
 	api := int64(0)
 	switch caller {
@@ -123,7 +183,7 @@ func doQ[T any](q *faultQ, m string, f func() (T, error)) (T, error) {
 	if fail {
 		var zero T
 		q.note(m, "fail", caller)
-		return zero, errInjected
+		return zero, q.injected(m)
 	}
 	v, err := f()
 	switch {
@@ -502,6 +562,29 @@ func faultPlans(tier string) []faultPlan {
 		}
 	}
 	out = append(out, faultPlan{Kind: "slow"})
+	// ---- the kind of error: what a store with per-operation deadlines, or one that reuses the sentinels of
+	// package quartz, reports.  Quiet bursts (no API call while the loop meets the fault: nothing else wakes it),
+	// single faults in the API scenario, random mixes.
+	for _, m := range []string{"Size", "Head", "Pop"} {
+		for _, k := range errKinds[1:] {
+			if kindAllowed(k, m) {
+				out = append(out, faultPlan{Kind: "burst", Method: m, Index: 2, K: 2, RI: 20, Err: k})
+			}
+		}
+		out = append(out, faultPlan{Kind: "burst", Method: m, Index: 1, K: 1, RI: 30, Err: "deadline"})
+		out = append(out, faultPlan{Kind: "single", Method: m, Index: 1, Fault: "fail", Err: "deadline"},
+			faultPlan{Kind: "single", Method: m, Index: 3, Fault: "fail", Err: "canceled"})
+	}
+	for _, m := range []string{"Push", "Get", "Remove", "ScheduledJobs", "Clear"} {
+		i := 0
+		for _, k := range errKinds[1:] {
+			if kindAllowed(k, m) {
+				out = append(out, faultPlan{Kind: "single", Method: m, Index: i % ranges[m], Fault: "fail", Err: k})
+				i++
+			}
+		}
+	}
+	out = append(out, faultPlan{Kind: "random", Pct: 20, Err: "mixed"}, faultPlan{Kind: "random", Pct: 50, Err: "mixed"})
 	return out
 }
 
